@@ -1,6 +1,6 @@
 from lib.pipeline import Prop
 PROP = Prop(
-    "C02", harness="sim02", harness_kind="test", tags="verif synctests", driver="C02",
+    "C02", harness="sim", quick=["--mode", "idem"], thorough=["--mode", "idem"], harness_kind="test", tags="verif synctests", driver="C02",
     models=[("pkg/kgo/sink.go", ["sink.handleReqClientErr", "sink.handleReqRespBatch", "sink.handleRetryBatches", "recBuf.failAllRecords", "recBuf.resetBatchDrainIdx"])],
     rule="scenario = idempotent kgo producer (1-3 goroutines x 10-70 records, manual partitioner over 1-3 partitions, linger 0-10ms, optional record timeout, retry limits 1/3/20, "
          "a mode with one record per batch) x real kfake (1-3 brokers, leader moves) in a synctest bubble; faults per produce request: connection killed before kfake saw it, "
